@@ -22,6 +22,8 @@ CLAIMS = {
  
 CLAIMS["C11"] = ("For every function of the module that derives a cluster slot: CRC-16 table equal to the XMODEM table computed in the checker, update-step shape, 16383 mask on every return, and — on all return paths — the hashed substring is key[s+1:e] with s/e first-match scans for '{' and the following '}', exactly when both are found and the tag is non-empty, the whole key otherwise; no other function computes slots; sibling functions agree. For the recognised scan idiom this is HASH_SLOT's definition; other idioms are reported undecided.", "3/C11")
 
+CLAIMS["C17"] = ("On every path of the maintenance routines: UpdateCheckpoint writes new ≺ repoints index ≺ deletes old ≺ deletes old index entry, a failed step is the last effect, and the database the old checkpoint was found in is selected before the new one is written; stale collection deletes only entries older than the threshold and never the newest entry of a live id, and drops an index entry only for dead ids whose entries are all gone; mode migration seeds the new namespace completely before repointing and retires the old one afterwards; re-keying passes [new, old].", "3/C17")
+
 NOT_YET = "check not built yet in this revision (planned, see DESIGN.md section 3)"
 
 def main():
